@@ -7,9 +7,9 @@ Helper lemmas for C10 with fenced_code (the preprocessor, worker fc2): what `Fen
 * the loop invariant: every placeholder written so far is a block of its own and lies before the search index; behind the
   index the text is a piece of the source (`fencedLoopA_inv`);
 * `fencedRunA_own`: the result is `NoCtlF.OwnBlock stash.length t'` (`Spec/F/OwnBlock.lean`), keeps the character class
-  of the domain (`DomB`: no `<`, no `&`), `Adj3`, `Qw wl`, and every stash entry is free of STX/ETX.
+  of the domain (`DomA`: no `<`, and no `&` unless `HtmlBound.amp`), `Adj3`, `Qw wl`, and every stash entry is free of STX/ETX.
 
-No `HtmlBound` instance occurs in the statements.  Core Lean only.
+The `HtmlBound` instance occurs in the statements only through the character domain `DomA` (parameter `amp`).  Core Lean only.
 -/
 import MdVerif.Lemmas.F.PlaceholdersXTBlock5
 import MdVerif.Lemmas.FencedCodeAttrs
@@ -18,9 +18,11 @@ import MdVerif.Lemmas.PlaceholdersChain
 import MdVerif.Lemmas.Code
 
 namespace MdVerif.NoCtlXF.XT
+variable [MdVerif.NoCtlF.HtmlBound]
+set_option linter.unusedSectionVars false
 open Py
 open MdVerif.NoCtl (STX ETX NoCtl DomB Adj3 NoPair domCharB)
-open MdVerif.NoCtlF (nn NlOpt BeforeTok AfterTok OwnBlock)
+open MdVerif.NoCtlF (nn NlOpt BeforeTok AfterTok OwnBlock DomA domCharA)
 open MdVerif.NoCtlX (Qw)
 open MdVerif.Fenced
 
@@ -201,7 +203,7 @@ theorem fenceFindFrom_shape {text : Str} {index : Nat} {m : FenceMatch} (h : fen
 structure FInv (wl : Bool) (text : Str) (index h : Nat) : Prop where
   own : OwnBlock h text
   rest : NoCtl (text.drop index)
-  dom : DomB text
+  dom : DomA text
   adj : Adj3 text
   qw : Qw wl text
 
@@ -231,7 +233,6 @@ theorem mem_mid {n : Nat} {c : Char} (h : c ∈ '\n' :: Fenced.placeholder n ++ 
 
 theorem not_mem_mid (n : Nat) {x : Char} (h0 : x ≠ '\n') (h1 : x ≠ STX) (h2 : x ≠ ETX) (h3 : NoCtlF.inner x = false) :
     x ∉ '\n' :: Fenced.placeholder n ++ ['\n'] := by
-  haveI : NoCtlF.HtmlBound := ⟨0, false⟩
   intro hm
   rcases mem_mid hm with e | e
   · exact h0 e
@@ -286,7 +287,6 @@ theorem finv_step {wl : Bool} {text : Str} {index h : Nat} (hI : FInv wl text in
     (hm : fenceFindFrom text index = some m) :
     FInv wl (text.take m.start ++ '\n' :: (Fenced.placeholder h ++ '\n' :: text.drop m.stop))
       (m.start + 1 + (Fenced.placeholder h).length) (h + 1) := by
-  haveI : NoCtlF.HtmlBound := ⟨0, false⟩
   obtain ⟨b1, b2, b3, hls, ⟨c, rD, hD, hc⟩, hle, _, _, _⟩ := fenceFindFrom_shape hm
   have hcn : c ≠ '\n' := by rcases hc with rfl | rfl <;> decide
   have hcph : ∀ n, c ∉ Fenced.placeholder n := by
@@ -412,20 +412,16 @@ theorem finv_step {wl : Bool} {text : Str} {index h : Nat} (hI : FInv wl text in
               · exact hCn.2 hm'⟩
   · -- characters
     intro d hd
-    have hAd : ∀ x ∈ A, domCharB x = true := fun x hx => hI.dom x (by rw [htext]; exact List.mem_append_left _ hx)
-    have hCd : ∀ x ∈ C, domCharB x = true := fun x hx => hI.dom x (by
+    have hAd : ∀ x ∈ A, domCharA x = true := fun x hx => hI.dom x (by rw [htext]; exact List.mem_append_left _ hx)
+    have hCd : ∀ x ∈ C, domCharA x = true := fun x hx => hI.dom x (by
       rw [← hC] at hx; exact (List.drop_suffix _ _).subset hx)
     simp only [List.mem_append, List.mem_cons] at hd
     rcases hd with hd | rfl | hd | rfl | hd
     · exact hAd d hd
-    · decide
-    · cases hdd : domCharB d with
-      | true => rfl
-      | false =>
-        exfalso
-        simp only [domCharB, Bool.and_eq_false_iff, bne_eq_false_iff_eq] at hdd
-        rcases hdd with rfl | rfl <;> exact ph_not_mem h (by decide) (by decide) (by decide) hd
-    · decide
+    · exact NoCtlF.domCharA_of_ne (by decide) (by decide)
+    · refine NoCtlF.domCharA_of_ne ?_ ?_ <;> rintro rfl <;>
+        exact ph_not_mem h (by decide) (by decide) (by decide) hd
+    · exact NoCtlF.domCharA_of_ne (by decide) (by decide)
     · exact hCd d hd
   · -- the three adjacencies
     have hre : A ++ '\n' :: (Fenced.placeholder h ++ '\n' :: C) = A ++ ('\n' :: Fenced.placeholder h ++ ['\n']) ++ C := by
@@ -566,7 +562,7 @@ theorem entry_noctl {a lang code : Str} (ha : NoCtl a) (hl : NoCtl lang) (hc : N
 theorem fencedLoopA_inv (wl : Bool) : ∀ (fuel : Nat) (text : Str) (index : Nat) (stash : List Str) (t' : Str)
     (stash' : List Str), Fenced.fencedLoopA fuel text index stash = .ok t' stash' →
     FInv wl text index stash.length → (∀ e ∈ stash, NoCtl e) →
-    (OwnBlock stash'.length t' ∧ DomB t' ∧ Adj3 t' ∧ Qw wl t') ∧ ∀ e ∈ stash', NoCtl e := by
+    (OwnBlock stash'.length t' ∧ DomA t' ∧ Adj3 t' ∧ Qw wl t') ∧ ∀ e ∈ stash', NoCtl e := by
   intro fuel
   induction fuel with
   | zero => intro text index stash t' stash' h; simp [Fenced.fencedLoopA] at h
@@ -606,16 +602,17 @@ theorem fencedLoopA_inv (wl : Bool) : ∀ (fuel : Nat) (text : Str) (index : Nat
 
 /-- **`FencedBlockPreprocessor.run` on a text without STX/ETX**: in the text handed on every STX/ETX belongs to a
     placeholder `STX wzxhzdk:n ETX`, `n` below the length of the stash, that is a block of its own; the text keeps the
-    character class of the domain (`DomB`: no `<`, no `&`), has none of the three adjacencies and (with wikilinks) no
+    character class of the domain (`DomA`: no `<`, and no `&` unless `HtmlBound.amp`), has none of the three adjacencies and (with wikilinks) no
     `[` before a blank when the source has none; every stash entry is free of STX/ETX. -/
 theorem fencedRunA_own (wl : Bool) {t t' : Str} {stash : List Str} (h : Fenced.fencedRunA t = .ok t' stash)
-    (hn : NoCtl t) (hd : DomB t) (ha : Adj3 t) (hq : Qw wl t) :
-    (OwnBlock stash.length t' ∧ DomB t' ∧ Adj3 t' ∧ Qw wl t') ∧ ∀ e ∈ stash, NoCtl e :=
+    (hn : NoCtl t) (hd : DomA t) (ha : Adj3 t) (hq : Qw wl t) :
+    (OwnBlock stash.length t' ∧ DomA t' ∧ Adj3 t' ∧ Qw wl t') ∧ ∀ e ∈ stash, NoCtl e :=
   fencedLoopA_inv wl _ _ _ _ _ _ h
     ⟨ownBlock_of_noCtl hn, by simpa using hn, hd, ha, hq⟩ (fun e he => by cases he)
 
-/-- `DomB` is "neither `<` nor `&`": with `fencedRunA_own` neither comes in (so `Extract.extract t' = t'`) -/
-theorem domB_no_amp_lt {s : Str} (h : DomB s) : '&' ∉ s ∧ '<' ∉ s :=
-  ⟨fun hm => by have := h _ hm; revert this; decide, fun hm => by have := h _ hm; revert this; decide⟩
+/-- without ampersands `DomA` is "neither `<` nor `&`": with `fencedRunA_own` neither comes in (so
+    `Extract.extract t' = t'`) -/
+theorem domA_no_amp_lt (hamp : NoCtlF.HtmlBound.amp = false) {s : Str} (h : DomA s) : '&' ∉ s ∧ '<' ∉ s :=
+  ⟨NoCtlF.domA_no_amp hamp h, NoCtlF.domA_no_lt h⟩
 
 end MdVerif.NoCtlXF.XT
